@@ -16,7 +16,13 @@ depend on presentation:
       never to judge code; a local that cannot be recovered keeps its name and the rules see it
       as it is.
 
-All three are semantics-preserving rewrites of the analysed program text (nothing is executed).
+  N4  an ordering comparison written the other way round is mirrored back, and
+  N5  an `if not c: A else: B` is put back as `if c: B else: A`, when (and only when) the present
+      form is unknown in the reference function and the mirrored form is known there (shape table
+      in refnames.json, locals abstracted)
+  N7  `logger.debug/info(...)` statements are dropped (warnings and errors are kept)
+
+All are semantics-preserving rewrites of the analysed program text (nothing is executed).
 """
 
 import ast
@@ -190,8 +196,14 @@ def inline_temps(f):
                 stores.setdefault(n.name, []).append(n)
         for n in ast.walk(f):
             if n is not f and isinstance(n, (ast.FunctionDef, ast.AsyncFunctionDef, ast.Lambda, ast.ClassDef)):
+                if isinstance(n, ast.ClassDef):
+                    own_bound = set()
+                elif isinstance(n, ast.Lambda):
+                    own_bound = {a.arg for a in n.args.args + n.args.kwonlyargs}
+                else:
+                    own_bound = param_names(n) | local_names(n)
                 for x in ast.walk(n):
-                    if isinstance(x, ast.Name):
+                    if isinstance(x, ast.Name) and x.id not in own_bound:
                         nested.add(x.id)
         # comprehension bodies are nested scopes too, but reading an enclosing local there is fine
         # only when the read is in the first iterable; keep it simple: treat as nested
@@ -461,6 +473,77 @@ def recover_names(f, modname, qual, stats=None):
     return ren
 
 
+# ------------------------------------------------------------------------------ N7
+LOG_FUNCS = {"logger.debug", "logger.info", "logging.debug", "logging.info"}
+
+
+def strip_logging(tree):
+    """progress / trace logging (`logger.debug`, `logger.info`) carries no behaviour the properties
+    speak about; warnings and errors are kept (R32.1 counts them as effects)"""
+    n = 0
+    for node in ast.walk(tree):
+        for fld in BLOCKS:
+            b = getattr(node, fld, None)
+            if isinstance(b, list) and len(b) > 1 and all(isinstance(s, ast.stmt) for s in b):
+                nb = [s for s in b if not (isinstance(s, ast.Expr) and isinstance(s.value, ast.Call) and ast.unparse(s.value.func) in LOG_FUNCS)]
+                if nb and len(nb) != len(b):
+                    n += len(b) - len(nb)
+                    setattr(node, fld, nb)
+        if isinstance(node, ast.ExceptHandler) and len(node.body) > 1:
+            nb = [s for s in node.body if not (isinstance(s, ast.Expr) and isinstance(s.value, ast.Call) and ast.unparse(s.value.func) in LOG_FUNCS)]
+            if nb:
+                node.body = nb
+    return n
+
+
+# ------------------------------------------------------------------------------ N4 / N5
+FLIP = {ast.Lt: ast.Gt, ast.Gt: ast.Lt, ast.LtE: ast.GtE, ast.GtE: ast.LtE}
+
+
+def _shape(e, locs):
+    return _abstract(e, {v: "L_" for v in locs})
+
+
+def shapes(f):
+    """abstracted texts of the ordering comparisons and of the if-tests of a function"""
+    locs = local_names(f)
+    cmp_, ifs = [], []
+    for n in own(f):
+        if isinstance(n, ast.Compare) and len(n.ops) == 1 and type(n.ops[0]) in FLIP:
+            cmp_.append(_shape(n, locs))
+        if isinstance(n, ast.If):
+            ifs.append(_shape(n.test, locs))
+    return {"cmp": sorted(set(cmp_)), "if": sorted(set(ifs))}
+
+
+def restore_shapes(f, modname, qual):
+    """a comparison written the other way round (`b > a` for `a < b`) or an if/else written with the
+    negated test and swapped branches is put back the way the reference tree writes it -- only when
+    the present form is unknown in the reference function and the mirrored form is known there"""
+    ref = _ref().get("__shapes__", {}).get(modname, {}).get(qual)
+    if not ref:
+        return 0
+    locs = local_names(f)
+    rc, ri = set(ref["cmp"]), set(ref["if"])
+    done = 0
+    for n in own(f):
+        if isinstance(n, ast.Compare) and len(n.ops) == 1 and type(n.ops[0]) in FLIP:
+            if _shape(n, locs) in rc:
+                continue
+            m = ast.Compare(left=n.comparators[0], ops=[FLIP[type(n.ops[0])]()], comparators=[n.left])
+            if _shape(m, locs) in rc:
+                n.left, n.ops, n.comparators = m.left, m.ops, m.comparators
+                done += 1
+    for n in own(f):
+        if isinstance(n, ast.If) and n.orelse and isinstance(n.test, ast.UnaryOp) and isinstance(n.test.op, ast.Not):
+            if _shape(n.test, locs) in ri:
+                continue
+            if _shape(n.test.operand, locs) in ri and not (len(n.body) == 1 and isinstance(n.body[0], ast.If) and False):
+                n.test, n.body, n.orelse = n.test.operand, n.orelse, n.body
+                done += 1
+    return done
+
+
 # ------------------------------------------------------------------------------ driver
 def functions(tree):
     """(qualname, FunctionDef) in the same naming as base.Mod.funcs, outermost first"""
@@ -482,7 +565,8 @@ def functions(tree):
 
 
 def normalise(tree, modname, names=True):
-    info = {"pass_stripped": 0, "temps_inlined": 0, "renamed": {}}
+    info = {"pass_stripped": 0, "temps_inlined": 0, "renamed": {}, "logging_stripped": 0, "shapes_restored": 0}
+    info["logging_stripped"] = strip_logging(tree)
     strip_pass(tree)
     fs = functions(tree)
     for q, f in fs:
@@ -492,18 +576,24 @@ def normalise(tree, modname, names=True):
             ren = recover_names(f, modname, q)
             if ren:
                 info["renamed"][q] = ren
+        for q, f in fs:
+            info["shapes_restored"] += restore_shapes(f, modname, q)
     ast.fix_missing_locations(tree)
     return info
 
 
 def reference_table(trees):
     """{module: {qualname: {local: signature}}} for refnames.json (trees already N1/N2-normalised)"""
-    out = {}
+    out = {"__shapes__": {}}
     for modname, tree in trees.items():
-        d = {}
+        d, sh = {}, {}
         for q, f in functions(tree):
             s = signatures(f)
             if s:
                 d[q] = s
+            x = shapes(f)
+            if x["cmp"] or x["if"]:
+                sh[q] = x
         out[modname] = d
+        out["__shapes__"][modname] = sh
     return out
